@@ -12,5 +12,5 @@ d = tempfile.mkdtemp()
 os.makedirs(d + "/a/" + os.path.dirname(f), exist_ok=True); os.makedirs(d + "/b/" + os.path.dirname(f), exist_ok=True)
 open(d + "/a/" + f, "w").write(s); open(d + "/b/" + f, "w").write(t)
 out = subprocess.run(["diff", "-u", "a/" + f, "b/" + f], cwd=d, capture_output=True, text=True).stdout
-open("/verif/mutants/%s.diff" % name, "w").write(out)
+open("/verif/%s/%s.diff" % (os.environ.get("MUTDIR", "mutants"), name), "w").write(out)
 print("wrote", name)
